@@ -4,7 +4,8 @@
    Proofs/ContOrderProofs.v (invariant Model/ContInv.v over the transition system Model/ContStore.v). *)
 From RipV Require Import Base.Prelude Model.Frames Model.Log Model.ContStore Model.ContInv Model.SessGuard
   Model.SeqCount Gen.AppendOps Proofs.LogProofs Proofs.ContStoreProofs Proofs.ContOrderProofs Proofs.SessGuardProofs
-  Proofs.SeqCountProofs Model.WireRun Gen.RequestHead Proofs.RunSitesProofs Proofs.SeqHeadProofs.
+  Proofs.SeqCountProofs Model.WireRun Gen.RequestHead Proofs.RunSitesProofs Proofs.SeqHeadProofs
+  Model.C02Decide Model.SeqCreate Proofs.C02DecideProofs Proofs.SeqCreateProofs.
 
 (* "0,1,2,.. no gap, no duplicate, in file order for every stream" and "a full validated replay
    succeeds" are the same statement: rip-log's validator decides Valid *)
@@ -425,6 +426,56 @@ Example c01_request_head_example :
   /\ head_kinds false head_code = [EOpenResponsesRequestStarted]
   /\ forallb seg_ok [SSite ESessionStarted] = true.
 Proof. exact request_head_example. Qed.
+
+(* ---- a creating call whose STORE side write fails (Model/SeqCreate.v): create_continuity_locked appends the new thread's
+   seq-0 frame to the log and THEN saves continuities/index.json; a failed save answers Err with the frame in the log ---- *)
+
+(* whatever the log: a second frame carrying a number its stream has already written makes the log invalid *)
+Theorem c01_second_frame_with_a_written_number_is_never_valid : forall (l : log) (f f' : frame),
+  fkind f' = fkind f -> sid f' = sid f -> seq f' = seq f -> ~ Valid ((l ++ [f]) ++ [f']).
+Proof. exact second_frame_same_number_invalid. Qed.
+Print Assumptions c01_second_frame_with_a_written_number_is_never_valid.
+
+(* the retry AS BUILT: for every store whose log is valid and every state d1 a failed index save leaves (one more frame: a
+   continuity_created of the store's workspace, seq 0, on a stream without frames) - the log is valid; ensure_default
+   (log02c's Model/C02Decide.v `ensure`, the code's decision order: in-memory index, else the log, else create) appends
+   NOTHING, in the same process and after a restart with ANY index file and ANY in-memory index, and answers a thread of
+   the log *)
+Theorem c01_failed_index_save_then_retry_as_built : forall (d d1 : dstate) (f : frame),
+  Valid (s_log (d_st d)) -> FailedSaveCreation d d1 f ->
+  Valid (s_log (d_st d1))
+  /\ s_log (d_st (fst (ensure false d1))) = s_log (d_st d1)
+  /\ (forall file mem, s_log (d_st (fst (ensure false (reopen {| d_st := d_st d1; d_ws := d_ws d1; d_file := file; d_mem := mem |} (d_ws d1))))) = s_log (d_st d1))
+  /\ (MemSound d1 -> answer_code (d_ws d1) (s_log (d_st (fst (ensure false d1)))) (snd (ensure false d1)) = 1).
+Proof. exact failed_save_then_retry_as_built. Qed.
+Print Assumptions c01_failed_index_save_then_retry_as_built.
+
+(* REFUTED for a retry that creates the SAME id again (the seeded change C01-10): for EVERY such state the log is invalid
+   from then on *)
+Theorem c01_retry_same_id_after_logged_frame_invalid : forall (d d1 : dstate) (f : frame),
+  FailedSaveCreation d d1 f ->
+  validate (s_log (retry_same_id (d_st d1) (sid f) (d_ws d))) = false.
+Proof. exact failed_save_then_retry_same_id. Qed.
+Print Assumptions c01_retry_same_id_after_logged_frame_invalid.
+
+(* .. with a witness produced by the model's own creation (exec of create_continuity cut at the failing save): the first
+   ensure_default of a workspace answers Err with one frame logged; the same-id retry writes 0,0; the retry as built
+   answers that thread and appends nothing *)
+Theorem c01_retry_same_id_after_logged_frame_refuted :
+  exists d d1 f,
+    Valid (s_log (d_st d)) /\ FailedSaveCreation d d1 f /\ d1 = fst (ensure_sf d) /\ snd (ensure_sf d) = None
+    /\ validate (s_log (retry_same_id (d_st d1) (sid f) (d_ws d))) = false
+    /\ map seq (cstream (sid f) (s_log (retry_same_id (d_st d1) (sid f) (d_ws d)))) = [0; 0]
+    /\ s_log (d_st (fst (ensure false d1))) = s_log (d_st d1) /\ snd (ensure false d1) = Some (sid f)
+    /\ validate (s_log (d_st (fst (ensure false d1)))) = true.
+Proof. exact retry_same_id_refuted. Qed.
+Print Assumptions c01_retry_same_id_after_logged_frame_refuted.
+
+(* non-vacuity: a history with failed saves at ensure_default, at a branch and at the backfill after a restart *)
+Example c01_failed_index_save_history :
+  validate (s_log (d_st (snd (run_sw dstate0 w_calls)))) = true
+  /\ fst (run_sw dstate0 w_calls) = [1; 2; 1; 1; 1; 1; 2; 9; 3; 2; 5; 1; 6; 9; 7; 9; 8; 9; 8; 9; 8; 9; 8; 1; 8; 1; 9; 9; 10; 9].
+Proof. exact w_history. Qed.
 
 (* non-vacuity: five concurrent actors on the empty store (create a thread, post to the newest listed
    thread, a run, two pumps of one task) meet every hypothesis, and one of their schedules writes 8
